@@ -50,7 +50,7 @@ def record_violation(prop, rec):
         if d.get("err", "").startswith("go/format"):
             return "moq rejects its own output: " + d["err"][:300]
         return checks.get("C01", "")
-    if prop in ("C02", "C08", "C09", "C10", "C11", "C12", "C13", "C14", "C16", "C20", "C04"):
+    if prop in ("C02", "C08", "C09", "C10", "C11", "C12", "C13", "C14", "C16", "C17", "C20", "C04"):
         return checks.get(prop, "")
     return ""
 
@@ -186,7 +186,8 @@ def main(argv):
         coverage_extra["corr_wall_s"] = res.get("wall_s")
         asserted = 0
         for rec in recs:
-            dis = record_disagreement(prop, rec)
+            # C17 reads the corr stage for its writer oracle only: what the text says is not its business
+            dis = "" if prop == "C17" else record_disagreement(prop, rec)
             if dis:
                 disagreements.append((rec, dis))
             v = record_violation(prop, rec)
@@ -202,7 +203,7 @@ def main(argv):
                                            write_replay(prop, tier, seed, rec, res, v), True))
                 elif v:
                     violations.append((v, write_replay(prop, tier, seed, rec, res, v), True))
-            elif corr.wf(rec):
+            elif corr.wf(rec) or prop == "C17":
                 asserted += 1
                 if v:
                     violations.append((v, write_replay(prop, tier, seed, rec, res, v), True))
